@@ -756,7 +756,8 @@ RecvAltSvc(ep, f) ==
   ELSE RR(c1.ep, OK, <<[t |-> "Alt", org |-> f.org, fld |-> f.fld]>>)
 
 RecvPushPromise(ep, f) ==
-  IF SCur(ep.ls, 2) = 0 THEN RR(ep, PE, <<>>)
+  \* (refused before its block is decoded: the decoder never sees what the peer's encoder wrote)
+  IF SCur(ep.ls, 2) = 0 THEN RR([ep EXCEPT !.dl = TRUE], PE, <<>>)
   ELSE LET d == DecodeHP(ep, f) IN
   IF d.x.c # "ok" THEN RR([(IF d.x.c = "ProtocolError" THEN Mark(ep, "hpack_error_code") ELSE ep) EXCEPT !.dl = TRUE, !.decSize = d.size], d.x, <<>>)
   ELSE LET c1 == ConnStep([ep EXCEPT !.decSize = d.size], "RECV_PUSH_PROMISE") IN
